@@ -15,7 +15,8 @@ THEOREMS = [
     "NakenVerif.Expr.empty_rejected",
     "NakenVerif.Expr.adjacent_operands_rejected",
     "NakenVerif.Expr.lone_unary_rejected",
-    "NakenVerif.Expr.eval32_truncates",
+    "NakenVerif.Expr.eval32_exact",
+    "NakenVerif.Expr.eval32_rejects_unfit",
     "NakenVerif.Expr.unary_no_fault",
     "NakenVerif.Expr.eval_no_fault",
     "NakenVerif.Expr.Literal.literal_decimal",
@@ -124,6 +125,15 @@ def correspondence(ctx, corr):
     cases = gen_cases(ctx)
     lits = gen_literals(ctx)
     lines = [line_of(t) for _, t in cases] + ["lit %d %s" % (f, w) for w in lits for f in (0, 1)]
+    # the int overload: values around the 32-bit boundaries, and every chain/tree case again
+    n32 = []
+    for v in [0, 1, -1, 2**31 - 1, 2**31, 2**31 + 1, 2**32 - 1, 2**32, 2**32 + 1, -2**31, -2**31 - 1, -2**31 + 1,
+              2**33, 2**63 - 1, -2**63, 0x100002345, 0xffffffff, -0xffffffff, -2**32]:
+        n32.append((["-", hex(-v)] if v < 0 else [hex(v)]))
+        n32.append(["(", str(abs(v)), ")", "*", "-1" if v < 0 else "1"] if False else (["0", "-", str(-v)] if v < 0 else [str(v), "+", "0"]))
+    n32 += [t for _, t in cases[: ctx.scale(600, 6000)]]
+    ctx.notes["n32"] = n32
+    lines = ["expr32 0 " + " ".join(t) for t in n32] + lines
     # corpus first
     cp = os.path.join(nvlib.VERIF, "corpus", ID, "lines.txt")
     if os.path.exists(cp):
@@ -197,6 +207,27 @@ def oracle(ctx, orc, focus=None):
         if f:
             orc["failures"].append({"sig": f[0], "input": " ".join(toks), "expected": f[1], "observed": ans, "what": f[2],
                                     "replay_line": line_of(toks)})
+    # the 32-bit overload: exact or rejected, never silently truncated
+    if "n32" in ctx.notes and "lines" in ctx.notes:
+        n32 = ctx.notes["n32"]
+        start = len(lines) - len(cases) - 2 * len(lits) - len(n32)
+        for toks, ans in zip(n32, impl[start:start + len(n32)]):
+            orc["cases"] += 1
+            try:
+                v, used = G.ref_eval(toks, value_of_token)
+            except G.Malformed:
+                continue
+            if used != len(toks) or v is None or v == "unspec":
+                continue
+            sv = G.s64(v)
+            text = " ".join(toks)
+            if -2**31 <= sv <= 2**32 - 1:
+                if ans != "ok %08x" % (v & 0xffffffff):
+                    orc["failures"].append({"sig": "C04:narrow32-value:" + text, "input": text, "expected": "ok %08x" % (v & 0xffffffff),
+                                            "observed": ans, "what": "32-bit operand value wrong", "replay_line": "expr32 0 " + text})
+            elif ans != "err":
+                orc["failures"].append({"sig": "C04:narrow32-truncated:" + text, "input": text, "expected": "err (value %d does not fit 32 bits)" % sv,
+                                        "observed": ans, "what": "value silently truncated to 32 bits", "replay_line": "expr32 0 " + text})
     # literals: documented notations must have their positional value
     i = 0
     for w in lits:
